@@ -72,6 +72,9 @@ func newCtx() *Ctx {
 	return &Ctx{Outcomes: map[string]int64{}, Extra: map[string]int64{}, perSig: map[string]int{}}
 }
 
+// NewReplayCtx returns a context for re-running a unit body inside a Replay function.
+func NewReplayCtx() *Ctx { return newCtx() }
+
 // Outcome counts one observed outcome class.
 func (c *Ctx) Outcome(k string) { c.Outcomes[k]++ }
 
